@@ -930,8 +930,8 @@ func runDet2(m *Model, r *RuleResult) {
 			case det2AllowedFuncs[name]:
 				if pkg == "fmt" {
 					n := s.fn.Name()
-					if n != "String" && n != "SVG" {
-						add("violation", "fmt is allowed only inside String/SVG debug helpers (it formats pointers and map contents)")
+					if n != "String" && n != "SVG" && !onlyFeedsPanic(s.in.Value()) {
+						add("violation", "fmt is allowed only inside String/SVG debug helpers and for the text of a panic (it formats pointers and map contents)")
 						continue
 					}
 				}
